@@ -107,6 +107,11 @@ class Scenario:
             self.ann[s] = ann
         k = rng.choice([0, 0, 1, 2, 3])
         self.preferred = rng.sample(self.sids, min(k, n))
+        # tahoe.cfg mode: some or all of the configured grid-manager keys are damaged
+        self.damaged = []
+        if cfgmode == "cfg" and self.keys and rng.random() < 0.25:
+            self.damaged = list(self.keys) if rng.random() < 0.6 else [rng.choice(self.keys)]
+        self.config_refused = False
         self.events = []
         self.clients = {}
         self.rrefs = {"A": {}, "B": {}}
@@ -163,7 +168,11 @@ class Scenario:
         if self.keys:
             text += "[grid_managers]\n"
             for k in self.keys:
-                text += "%s = %s\n" % (k, self.world.gms[k].public_identity().decode("ascii"))
+                ident = self.world.gms[k].public_identity().decode("ascii")
+                if k in self.damaged:
+                    # a key that lost a character when it was pasted: configured, but not a key
+                    ident = ident[:len(ident) // 2] + ident[len(ident) // 2 + 1:]
+                text += "%s = %s\n" % (k, ident)
         config = config_from_string(basedir, "client.port", text, _valid_config=client_mod._valid_config())
         if self.cfgmode == "cfg":
             scc = StorageClientConfig.from_node_config(config)
@@ -256,7 +265,15 @@ class Scenario:
         saved = gm.current_datetime_with_zone
         gm.current_datetime_with_zone = lambda: self.world.t(self.now[0])
         try:
-            self.clients = {"A": self.make_broker(basedir), "B": self.make_broker(basedir)}
+            try:
+                self.clients = {"A": self.make_broker(basedir), "B": self.make_broker(basedir)}
+            except Exception as e:
+                if not self.damaged:
+                    raise
+                # the node refuses to start with such a configuration: nothing is uploaded anywhere
+                self.config_refused = True
+                self.events.append({"ev": "ConfigRefused", "error": type(e).__name__})
+                return
             self.cur = {c: {s_: (self.ann[s_], self.certs[s_]) for s_ in self.sids} for c in ("A", "B")}
             for c in ("A", "B"):
                 order = list(self.sids)
@@ -303,7 +320,8 @@ class Scenario:
             gm.current_datetime_with_zone = saved
 
     def trace(self):
-        return {"consts": {"servers": self.sids, "keys": self.keys, "preferred": self.preferred,
+        good = [k_ for k_ in self.keys if k_ not in self.damaged]
+        return {"consts": {"servers": self.sids, "keys": good, "configured": len(self.keys), "damaged": self.damaged, "preferred": self.preferred,
                            "certs": self.certs, "cfgmode": self.cfgmode,
                            "explicit_seed": sorted(s for s in self.sids if "permutation-seed-base32" in self.ann[s])},
                 "events": self.events}
